@@ -470,8 +470,10 @@ func (fi *FuncInfo) transfer(in ssa.Instruction, set func(ssa.Value, []PVal), ch
 						*changed = true
 					}
 				}
-			case r.Kind == KGlobal && load.IsInitFunc(f):
-				// package initialiser publishing a pointer: the pointee is named GPointee(g) elsewhere
+			case r.Kind == KGlobal && (load.IsInitFunc(f) || fi.A.P.IsOnceLiteral(f)):
+				// package initialiser — or the function run once under sync.Once — publishing a pointer: the pointee
+				// is named GPointee(g) elsewhere (that nothing else writes the variable, and that every other access
+				// is ordered after the Do, is R-GLOBAL's business)
 			default:
 				a.problem(f, in, "store of a pointer into %s", fi.LocName(pv.Loc))
 			}
@@ -1207,6 +1209,14 @@ func (fi *FuncInfo) dataflow() {
 			}
 			if ev.Loc.Root.IsFresh() {
 				t := fi.RootType(ev.Loc.Root)
+				if t != nil && NonZeroValid(t) && containsArray(TypeAt(t, ev.Loc.Path)) {
+					// a whole-object read (copy, return by value) of a table whose entries are filled through variable
+					// indices: element-wise definedness is a loop property the rule does not track (same as element reads)
+					if record {
+						fi.Untracked++
+					}
+					return
+				}
 				if t != nil && NonZeroValid(t) {
 					key := fi.LocName(ev.Loc) + "@" + fmt.Sprint(ev.Instr.Pos())
 					if !localSeen[key] {
@@ -2113,4 +2123,24 @@ func knownByBranch(ev ssa.Value, b *ssa.BasicBlock) int {
 		}
 	}
 	return 2
+}
+
+// containsArray: the type is, or has a (nested) field that is, an array.
+func containsArray(t types.Type) bool {
+	if t == nil {
+		return false
+	}
+	switch u := t.Underlying().(type) {
+	case *types.Array:
+		return true
+	case *types.Struct:
+		for i := 0; i < u.NumFields(); i++ {
+			if _, isArr := u.Field(i).Type().Underlying().(*types.Array); isArr {
+				if ft := u.Field(i).Type().Underlying().(*types.Array); ft.Len() > 0 {
+					return true
+				}
+			}
+		}
+	}
+	return false
 }
